@@ -12,6 +12,31 @@ import z3
 from .values import EnumV, Unsupported, EngineError
 
 
+def loop_shape(text):
+    """Structural fingerprint of a loop head: tolerant to edits of bounds / comparison operators
+    (those must show up as failed obligations, not as anchoring errors), strict about which loop
+    it is: `for <target> in <callee>` resp. the set of names a `while` test reads."""
+    text = text.strip()
+    try:
+        if text.startswith("for "):
+            node = ast.parse(text + ":\n    pass").body[0]
+            it = node.iter
+            callee = it.func.id if isinstance(it, ast.Call) and isinstance(it.func, ast.Name) else type(it).__name__
+            return "for %s in %s" % (ast.unparse(node.target), callee)
+        node = ast.parse(text, mode="eval").body
+        names = set()
+        for e in ast.walk(node):
+            if isinstance(e, ast.Attribute):
+                names.add(ast.unparse(e))
+            elif isinstance(e, ast.Name):
+                names.add(e.id)
+        # drop names that are only prefixes of collected attributes
+        names = {n for n in names if not any(m.startswith(n + ".") for m in names)}
+        return "while " + ",".join(sorted(names))
+    except SyntaxError:
+        return text
+
+
 class LoopSpec:
     def __init__(self, test, inv, decreases=None, extra_modifies=(), index_name=None):
         self.test = test                    # fingerprint: ast.unparse of the loop test / iter
@@ -25,7 +50,8 @@ class Contract:
                  raises_unchanged=True, frame=None, pure=False, returns=None, loops=(), total=True,
                  props=(), hooks=None, locals=None, defaults=None, is_property=False,
                  uf_params=None, assumed=False, note="", ghost=None, exc_props=None,
-                 stop_ensures=(), bounded=(), globals=None, hints=None, yields_range=None):
+                 stop_ensures=(), bounded=(), globals=None, hints=None, yields_range=None,
+                 recursion_measure=None):
         self.name = name
         self.short = name.split(".")[-1]
         self.params = OrderedDict(params)     # name -> type descriptor
@@ -57,6 +83,9 @@ class Contract:
         self.hints = dict(hints or {})
         # generator that is exactly `yield from range(lo, hi, step)`: (lo expr, hi expr, step int)
         self.yields_range = yields_range
+        # well-founded recursion: a recursive call (through its wrapper contract) must strictly
+        # decrease this non-negative measure of the arguments
+        self.recursion_measure = recursion_measure
 
     def default_value(self, nm, engine):
         from .engine import State
@@ -74,7 +103,7 @@ class Contract:
         if ordinal >= len(self.loops):
             raise AnchorError("%s: no loop contract for loop[%d] (%s)" % (self.name, ordinal, fingerprint))
         spec = self.loops[ordinal]
-        if spec.test is not None and spec.test != fingerprint:
+        if spec.test is not None and loop_shape(spec.test) != loop_shape(fingerprint):
             raise AnchorError("%s: loop[%d] is `%s`, the sidecar expects `%s`" % (
                 self.name, ordinal, fingerprint, spec.test))
         return spec
@@ -105,6 +134,7 @@ class Registry:
         self._ghost_trees = {}
         self.aliases = {}
         self.arith_lemmas = {}
+        self.spec_axiom_text = {}
         self.z3_definitions = {}     # spec function -> [(label, formula)]: definitional axioms
         self.z3_lemmas = {}          # spec function -> [(label, formula)]: proved by induction
 
@@ -138,6 +168,12 @@ class Registry:
             else:
                 c.uf = z3.Function(base, *(sorts + [self.sort_of(c.returns)]))
         return c
+
+    def spec_axioms(self, fname, axioms):
+        """Definitional axioms of a spec function, written in the contract language (closed
+        formulas: forall/exists over integers).  They are added to exactly the VCs that mention
+        the function, and listed in the evidence as the *definition* of the spec function."""
+        self.spec_axiom_text.setdefault(fname, []).extend(axioms)
 
     def arith_lemma(self, name, params, hyps, concl, props=()):
         """A universally quantified arithmetic fact, proved on its own (small, stable query) by
